@@ -37,7 +37,7 @@ Stats == [t |-> "stats", f |-> "n", fk |-> "i64", hasmissing |-> FALSE, missing4
 Hist(mdc, subs) ==
   [t |-> "hist", f |-> "n", fk |-> "i64", iv4 |-> 8, off4 |-> 0, hasmdc |-> TRUE, mdc |-> mdc, hasext |-> FALSE,
    extmin4 |-> 0, extmax4 |-> 0, hashard |-> FALSE, hardmin8 |-> 0, hardmax8 |-> 0, hasmissing |-> FALSE,
-   missing4 |-> 0, subs |-> subs]
+   missing4 |-> 0, rnd |-> "floor", subs |-> subs]
 Terms(size, mdc, missing, subs) ==
   [t |-> "terms", f |-> "k", size |-> size, hassize |-> size > 0, shard |-> 0, hasshard |-> FALSE, mdc |-> mdc,
    hasmissing |-> missing # "", missing |-> missing, subs |-> subs]
